@@ -95,26 +95,26 @@ type table struct {
 
 // kase is one experiment with what both models say about it; it is also the replay input.
 type kase struct {
-	Kind   string `json:"kind"` // create | honest | corrupt | byz | validate | proto | sched | pad
-	D      int    `json:"d"`
-	P      int    `json:"p"`
-	Len    int    `json:"len"`
-	NZ     bool   `json:"nz"`
-	Mask   int    `json:"mask"` // slots that hold a unit
-	F      string `json:"f,omitempty"`
-	U      int    `json:"u"`
-	J      int    `json:"j"`
-	Pad    string `json:"pad,omitempty"`
-	Loc    int    `json:"loc"`
-	Pub    int    `json:"pub"`
-	Q      int    `json:"q"`
-	Sender int    `json:"sender"`
-	Seen   bool   `json:"seen"`
-	Cached bool   `json:"cached"`
-	NP     int    `json:"np"`
-	What   string `json:"what,omitempty"` // sub-check of a create / sched / pad case
-	Fix    string `json:"fix"`
-	Cur    string `json:"cur"`
+	Kind   string       `json:"kind"` // create | honest | corrupt | byz | validate | proto | sched | pad
+	D      int          `json:"d"`
+	P      int          `json:"p"`
+	Len    int          `json:"len"`
+	NZ     bool         `json:"nz"`
+	Mask   int          `json:"mask"` // slots that hold a unit
+	F      string       `json:"f,omitempty"`
+	U      int          `json:"u"`
+	J      int          `json:"j"`
+	Pad    string       `json:"pad,omitempty"`
+	Loc    int          `json:"loc"`
+	Pub    int          `json:"pub"`
+	Q      int          `json:"q"`
+	Sender int          `json:"sender"`
+	Seen   bool         `json:"seen"`
+	Cached bool         `json:"cached"`
+	NP     int          `json:"np"`
+	What   string       `json:"what,omitempty"` // sub-check of a create / sched / pad case
+	Fix    string       `json:"fix"`
+	Cur    string       `json:"cur"`
 	Plan   *sessionPlan `json:"plan,omitempty"` // session cases
 	// for index corruptions both alternatives (the bytes decide which applies)
 	FixBenign string `json:"fix_benign,omitempty"`
